@@ -184,11 +184,9 @@ func genTrace(thorough bool, seed int64, emit func(traceEvent)) {
 		case 'H':
 			edges := [][3]int{{2020, 1, 1}, {2020, 3, 1}, {2021, 3, 1}, {2020, 5, 1}}
 			if thorough {
-				edges = nil
-				for y := 2019; y <= 2021; y++ {
-					for m := 1; m <= 12; m++ {
-						edges = append(edges, [3]int{y, m, 1})
-					}
+				edges = [][3]int{{2019, 1, 1}, {2019, 3, 1}, {2021, 1, 1}, {2021, 3, 1}}
+				for m := 1; m <= 12; m++ {
+					edges = append(edges, [3]int{2020, m, 1})
 				}
 			}
 			for _, e := range edges {
@@ -198,10 +196,10 @@ func genTrace(thorough bool, seed int64, emit func(traceEvent)) {
 				}
 			}
 			if thorough {
-				for l := 1; l <= 40; l++ {
+				for l := 1; l <= 30; l++ {
 					lens = append(lens, l)
 				}
-				lens = append(lens, 47, 48, 49, 72)
+				lens = append(lens, 47, 48, 49)
 			} else {
 				lens = []int{1, 2, 11, 13, 24, 25, 30, 49}
 			}
@@ -209,7 +207,7 @@ func genTrace(thorough bool, seed int64, emit func(traceEvent)) {
 			type span struct{ a, b int }
 			spans := []span{{hourIdx(2019, 12, 1, 0), hourIdx(2020, 4, 1, 0)}, {hourIdx(2021, 2, 20, 0), hourIdx(2021, 3, 5, 0)}}
 			if thorough {
-				spans = []span{{hourIdx(2019, 1, 1, 0), hourIdx(2022, 1, 1, 0)}}
+				spans = []span{{hourIdx(2019, 12, 1, 0), hourIdx(2021, 4, 1, 0)}}
 			}
 			for _, s := range spans {
 				for t := s.a; t < s.b; t += 24 {
@@ -217,7 +215,7 @@ func genTrace(thorough bool, seed int64, emit func(traceEvent)) {
 				}
 			}
 			if thorough {
-				for l := 1; l <= 40; l++ {
+				for l := 1; l <= 35; l++ {
 					lens = append(lens, l)
 				}
 				lens = append(lens, 59, 60, 61, 365, 366)
